@@ -66,7 +66,7 @@ def impl_main(payload):
             if cur is not None:
                 offered_min = cur if offered_min is None else min(offered_min, cur)
             if hof is not None and offered_min is not None:
-                if len(hof) == 0 or hof[0].fitness > offered_min:
+                if len(hof) == 0 or not (hof[0].fitness <= offered_min):      # NaN-aware: a NaN best entry bounds nothing
                     out["viol"].append("seed %d: hall of fame best %r is worse than the best individual %r of a population it was updated with"
                                        % (s, hof[0].fitness if len(hof) else None, offered_min))
                     break
